@@ -530,6 +530,7 @@ class Engine:
         # arbitrary iteration
         head = st.fork()
         head.writes = set()
+        snap = self.heap_snapshot(head)
         i = z3.Int(fresh_name("k"))
         self.havoc_locals(node, head, spec, i)
         if spec.havoc:
@@ -538,6 +539,8 @@ class Engine:
                 spec.havoc(self, head, i)  # heap havoc that depends on the loop index
             else:
                 spec.havoc(self, head)
+        allowed = self.havocked_locations(snap, head)
+        known_objs = set(head.heap)
         head.assume(i >= lo)
         for nm, g in spec.invariant(self, head, i):
             head.assume(g)
@@ -554,6 +557,7 @@ class Engine:
                     outs.append((s2, c))
                     continue
                 for s3, c3 in self.exec_block(node.body, s2):
+                    self.check_loop_frame(k, s3, allowed, known_objs)
                     if c3 is None or isinstance(c3, Continue):
                         for nm, g in spec.invariant(self, s3, i + 1):
                             self.oblige(f"{self.cur.qualname}.loop{k}.inv_step.{nm}", s3, g, kind="inv", site=node.lineno)
@@ -592,9 +596,12 @@ class Engine:
                     self.oblige(f"{self.cur.qualname}.loop{k}.inv_init.{nm}", s1, g, kind="inv", site=node.lineno)
                 head = s1.fork()
                 head.writes = set()
+                snap = self.heap_snapshot(head)
                 self.havoc_locals(node, head, spec)
                 if spec.havoc:
                     spec.havoc(self, head)
+                allowed = self.havocked_locations(snap, head)
+                known_objs = set(head.heap)
                 for nm, g in spec.invariant(self, head, None):
                     head.assume(g)
                 if spec.facts:
@@ -610,6 +617,7 @@ class Engine:
                             continue
                         self.loop_ord = k + 1
                         for s4, c4 in self.exec_block(node.body, s3):
+                            self.check_loop_frame(k, s4, allowed, known_objs)
                             if c4 is None or isinstance(c4, Continue):
                                 outs += self.back_edge(node, spec, k, s4)
                             elif isinstance(c4, Break):
@@ -683,6 +691,56 @@ class Engine:
                                 outs.append((s3, c3))
             live = nxt
         return outs
+
+    @staticmethod
+    def heap_snapshot(st):
+        snap = {}
+        for oid, o in st.heap.items():
+            if isinstance(o, HObject):
+                snap[oid] = ("obj", {k: id(v) if isinstance(v, (Sym, list, dict)) or hasattr(v, "sexpr") else repr(v) for k, v in o.fields.items()},
+                             getattr(o, "abs", None))
+            else:
+                snap[oid] = ("other", Engine._sig(o))
+        return snap
+
+    @staticmethod
+    def _sig(o):
+        """identity + shallow content signature of a container (so that an in-place havoc is seen)."""
+        if isinstance(o, HList):
+            return (id(o), tuple(id(x) for x in o.items))
+        if isinstance(o, HDict):
+            return (id(o), tuple((k, id(v)) for k, v in o.d.items()))
+        return (id(o),)
+
+    @staticmethod
+    def havocked_locations(before, st):
+        """(oid, key) pairs (key None = whole object) that the loop's havoc step replaced."""
+        out = set()
+        for oid, o in st.heap.items():
+            b = before.get(oid)
+            if b is None:
+                out.add((oid, None))
+            elif b[0] == "other":
+                if b[1] != Engine._sig(o):
+                    out.add((oid, None))
+            else:
+                for k, v in o.fields.items():
+                    cur = id(v) if isinstance(v, (Sym, list, dict)) or hasattr(v, "sexpr") else repr(v)
+                    if b[1].get(k, "<absent>") != cur:
+                        out.add((oid, k))
+                if getattr(o, "abs", None) is not b[2]:
+                    out.add((oid, "abs"))
+        return out
+
+    def check_loop_frame(self, k, st, allowed, fresh_before):
+        """Every heap write of the loop body must be to a location the loop head havocked (or to an object allocated
+        inside the iteration); otherwise the cut would silently keep the pre-loop value: refuse (unsupported)."""
+        for (oid, key) in st.writes:
+            if oid not in fresh_before:
+                continue  # allocated inside this iteration
+            if (oid, None) in allowed or (oid, key) in allowed:
+                continue
+            raise EngineUnsupported(f"loop #{k} of {self.cur.qualname} writes heap location ({oid}, {key}) that its invariant does not cover")
 
     def back_edge(self, node, spec, k, st):
         outs = []
@@ -1013,7 +1071,14 @@ class Engine:
         c = self.contracts.get(qualname)
         if c is None:
             raise EngineUnsupported(f"call to {qualname}: no contract")
-        return c.apply(self, st, selfv, list(args), dict(kwargs), site)
+        try:
+            return c.apply(self, st, selfv, list(args), dict(kwargs), site)
+        except NotImplementedError:
+            # the callee is verified on its own but has no caller view (it is not called from the verified code on the
+            # unchanged tree): execute its real body in place - sound, merely not modular
+            if qualname in extract.functions():
+                return self.inline_call(qualname, st, selfv, list(args), dict(kwargs))
+            raise EngineUnsupported(f"call to {qualname}: contract has no caller view")
 
     # ------------------------------------------------------------------ attributes
     def get_attr(self, st, o, name):
